@@ -12,7 +12,7 @@ RULE = ("texts: valid texts of generated and fixed patterns; single-edit mutants
         "distinct key = (type, create/parse, outcome class, text/pattern class)")
 ASSUMPTIONS = ["allowed outcomes: create -> pattern | InvalidPatternError; parse -> ParseResult whose failure carries an UnparsableValueError"]
 MIN_NT = {"quick": 300, "thorough": 1000}
-REQUIRED = {"any": ["creates", "parses", "result_accessors", "success_values_validated"]}
+REQUIRED = {"any": ["creates", "parses", "result_accessors", "success_values_validated", "synthetic_cultures_built"]}
 
 TYPES = ["LocalTime", "LocalDate", "LocalDateTime", "Offset", "Duration", "AnnualDate", "Instant"]
 FIXED = {
@@ -158,6 +158,8 @@ def pattern_mutants(rng, pt, n):
         elif op == 2: s[i] = rng.choice(PAL)
         else: s.insert(i, rng.choice(PAL))
         out.add("".join(s))
+    for f in ("dd", "MM", "uuuu", "c", "d", "M", "yyyy", "HH", "mm", "ss", "tt", "g", "ddd", "MMMM", "HH:mm"):
+        out |= {f"ld<uuuu'-'MM'-'dd> {f}", f"{f} ld<uuuu'-'MM'-'dd>", f"lt<HH':'mm> {f}", f"{f} lt<HH':'mm>", f"ld<uuuu'-'MM'-'dd> lt<HH':'mm> {f}", f"ld<uuuu'-'MM'-'dd> {f} lt<HH':'mm>"}
     out |= {"", "'", '"', "\\", "%", "%%", pt + "'", pt + '"', pt + "\\", pt + pt, "'" + pt, "ld<", "lt<", "l<", "ld<>", "lt<>", "l<>", "ld<" + pt, "ld<" + pt + ">", "lt<" + pt + ">",
             "l<" + pt + ">", "ld<ld<" + pt + ">>", "<" + pt + ">", pt + ">", pt + "<", "\0", pt + "\0", "\ud800", pt * 20}
     return out
@@ -219,16 +221,59 @@ def run_malformed(ctx):
     cults = G.cultures(rng, 3)
     for tname in TYPES:
         P = G.pattern_class(tname)
+        from vf.props.c07 import arbitrary_values
         for pt in FIXED[tname]:
             for m in pattern_mutants(rng, pt, 40):
-                judge_create(ctx, tname, P, m, rng.choice(cults), "malformed-mutant")
+                cu = rng.choice(cults)
+                p = judge_create(ctx, tname, P, m, cu, "malformed-mutant")
+                if p is not None and rng.random() < 0.5:
+                    # an accepted pattern must be usable: parse its own output and hostile neighbours of it
+                    try:
+                        t = p.format(arbitrary_values(rng, tname))
+                    except Exception as e:  # noqa: BLE001
+                        ctx.exc(e); continue
+                    for txt in [t] + list(text_mutants(rng, t, 6))[:10] + [t.replace("01", "30").replace("02", "13"), t + " 30", t + " 13", t + " Um Al Qura", t + " 99"]:
+                        judge_parse(ctx, tname, p, m, cu.name, txt, "accepted-mutant-pattern")
         for L in "abcdefghijklmnopqrstuvwxyzABCDEFGHIJKLMNOPQRSTUVWXYZ":
             for n in (1, 2, 3, 4, 5, 9, 10, 12):
                 for pre in ("", "%", "-", "+"):
                     judge_create(ctx, tname, P, pre + L * n, inv, "letter-run")
         for pt in ("yyyy yyyy", "MM MM", "dd d", "HH hh", "mm m", "ss s", "ff FF", "tt t", "g g", "c c", "uuuu yyyy", "HH:mm:ss.fffffffffffff", "+HH -HH", "D H", "hh H"):
             judge_create(ctx, tname, P, pt, inv, "repeated-field")
-    ctx.sample({"malformed_examples": ["ld<uuuu", "%", "'unterminated", "HH hh", "yyyyyyyyy"]})
+    # synthetic cultures: designators and separators that no stock culture has
+    def synth(am, pm, tsep=":", dsep="/"):
+        c = CultureInfo.invariant_culture.clone()
+        c.date_time_format.am_designator = am; c.date_time_format.pm_designator = pm
+        c.date_time_format.time_separator = tsep
+        try:
+            c.date_time_format.date_separator = dsep
+        except AttributeError:
+            pass   # no setter in this port
+        ctx.counters["synthetic_cultures_built"] += 1
+        return CultureInfo.read_only(c) if rng.random() < 0.5 else c
+    from pyoda_time import LocalDateTime, LocalTime
+    for am, pm, tsep, dsep in (("", "", ":", "/"), ("AM", "", ":", "/"), ("", "PM", ":", "/"), ("a", "ap", ".", "."), ("Foo", "Foo", ":", "-"), ("x", "y", "::", "//"), ("1", "2", ":", "/")):
+        try:
+            cu = synth(am, pm, tsep, dsep)
+        except Exception as e:  # noqa: BLE001
+            ctx.exc(e); continue
+        for tname, pats, vals in (("LocalTime", ["mm' 'tt", "tt' 'mm:ss", "t", "tt", "%t", "hh:mm tt", "HH:mm tt", "h t", "hh", "HH:mm:ss", "t hh", "T", "t"],
+                                  [LocalTime(0, 30), LocalTime(11, 59, 59), LocalTime(12, 0), LocalTime(23, 5)]),
+                                 ("LocalDateTime", ["uuuu/MM/dd mm tt", "uuuu-MM-dd hh:mm tt", "ld<uuuu/MM/dd> lt<mm tt>", "uuuu/MM/dd HH:mm", "G", "F"],
+                                  [LocalDateTime(2024, 2, 29, 0, 30), LocalDateTime(2024, 12, 31, 23, 59)])):
+            P = G.pattern_class(tname)
+            for pt in pats:
+                p = judge_create(ctx, tname, P, pt, cu, "synthetic-culture")
+                if p is None:
+                    continue
+                for v in vals:
+                    try:
+                        t = p.format(v)
+                    except Exception as e:  # noqa: BLE001
+                        ctx.exc(e); continue
+                    for txt in [t, t + " ", " " + t, t.upper(), t + am, t + pm, t.replace("30", "30 "), "30 ", "30", "5", ""] + list(text_mutants(rng, t, 6))[:8]:
+                        judge_parse(ctx, tname, p, pt, f"synthetic(am={am!r},pm={pm!r})", txt, "synthetic-culture")
+    ctx.sample({"malformed_examples": ["ld<uuuu", "%", "'unterminated", "HH hh", "yyyyyyyyy", "ld<uuuu'-'MM'-'dd> dd"], "synthetic_cultures": ["no AM/PM", "AM only", "PM only", "shared prefix", "identical", "multi-char separators"]})
     ctx.counters.setdefault("parses", 0)
 
 
